@@ -37,6 +37,8 @@ def must_see(tier):
         m[impl + ':weight0'] = 5
         m[impl + ':default-weights'] = 20
         m[impl + ':ghost-operands'] = 20
+        m[impl + ':far-end-of-value-range'] = 100
+        m[impl + ':result-in-upper-half-of-unsigned-range'] = 20
     return m
 
 
@@ -78,6 +80,32 @@ def weights(fam, rng):
     return rng.choice(pool), rng.choice(pool)
 
 
+def big_mode(fam, rng):
+    """-> (values, (w1, w2)) whose exact results v1*w1 + v2*w2 stay inside
+    the value domain but reach its far ends: the upper half of an unsigned
+    range (beyond 2^31 / 2^63, where a signed intermediate goes negative),
+    both ends of a signed one.  Every single product is representable too."""
+    lo, hi = INT_RANGES[fam.vc]
+    r = rng.random()
+    if r < .5:
+        # large values, small weights: at most 3*(hi/7) + 3*(hi/7) < hi
+        vs = [0, 1, hi // 7, hi // 7 - 1, hi // 8, hi // 9 + 5]
+        if lo < 0:
+            vs += [lo // 7, lo // 8 + 3, -1]
+        ws = [0, 1, 2, 3]
+        return vs, (rng.choice(ws), rng.choice(ws))
+    # small values (a set member counts 1), large weights:
+    # 1*(hi/2) + 1*(hi/3) < hi
+    vs = [0, 1, 1, 0]
+    w1 = rng.choice([hi // 2, hi // 3, hi // 2 - 7, hi // 4, 1, 0])
+    w2 = rng.choice([hi // 3, hi // 5, hi // 3 - 1, 2, 0])
+    if rng.random() < .15:
+        w1, w2 = rng.choice([(hi, 0), (0, hi), (hi - 1, 1)])
+    if rng.random() < .5:
+        w1, w2 = w2, w1
+    return vs, (w1, w2)
+
+
 def run_shard(spec, rec):
     fam = families.get(spec['family'])
     rng = rng_for(spec['seed'], ID, spec['label'])
@@ -86,10 +114,14 @@ def run_shard(spec, rec):
         impl = 'c' if (i % 2 == 0 or spec['variant'] in ('asan', 'vg')) else 'py'
         if i % 50 == 0:
             uni = fam.key_universe(rng, n=rng.choice([6, 12, 20]))
-        run_case(fam, impl, rng, rec, uni, vals, i)
+        if fam.vc != 'F' and i % 8 in (3, 6):
+            bv, bw = big_mode(fam, rng)
+            run_case(fam, impl, rng, rec, uni, bv, i, big_weights=bw)
+        else:
+            run_case(fam, impl, rng, rec, uni, vals, i)
 
 
-def run_case(fam, impl, rng, rec, uni, vals, i):
+def run_case(fam, impl, rng, rec, uni, vals, i, big_weights=None):
     fname = rng.choice(['weightedUnion', 'weightedIntersection'])
     fn = fam.fn(fname, impl)
     desc = dict(family=fam.name, impl=impl, fn=fname)
@@ -109,6 +141,10 @@ def run_case(fam, impl, rng, rec, uni, vals, i):
     b, kb, vb, kindb = operand()
     use_w = rng.random() < 0.7
     w1, w2 = weights(fam, rng) if use_w else (1, 1)
+    if big_weights is not None:
+        use_w = True
+        w1, w2 = big_weights
+        rec.ev(impl + ':far-end-of-value-range')
     # ---- None operands -----------------------------------------------------
     r = rng.random()
     if r < 0.05:
@@ -201,6 +237,8 @@ def run_case(fam, impl, rng, rec, uni, vals, i):
                 pass
             exact = Fraction(v1) * Fraction(w1) + Fraction(v2) * Fraction(w2)
             want.append((k, float(exact) if isf else int(exact)))
+            if fam.vc in 'UQ' and exact > INT_RANGES[fam.vc][1] // 2:
+                rec.ev(impl + ':result-in-upper-half-of-unsigned-range')
         got = list(res.items())
         bad = None
         if len(got) != len(want):
